@@ -836,6 +836,19 @@ func (r *c07Run) check(i int, seed int) {
 		if len(r.res.Viols) == 0 {
 			r.compare(i, `query { Book(filter: {rating: {_gt: 2.5}}, order: {rating: DESC}) { _docID rating } }`, "Book", "rating", "Book.rating")
 		}
+		// negative conditions and ordering through the relation (books without an author are part of the answer)
+		relq := []struct{ q, tag string }{
+			{`query { Book(filter: {author: {age: {_ne: 21}}}) { _docID title } }`, "Book.author.age:_ne"},
+			{`query { Book(filter: {author: {name: {_ne: "ann"}}}) { _docID title } }`, "Book.author.name:_ne"},
+			{`query { Book(filter: {author: {age: {_nin: [21, 22]}}}) { _docID title } }`, "Book.author.age:_nin"},
+			{`query { Book(order: {author: {age: DESC}}) { _docID title } }`, "Book.order-by-author.age"},
+			{`query { Book(order: {author: {name: ASC}}) { _docID title } }`, "Book.order-by-author.name"},
+			{`query { Book(filter: {author: {age: {_eq: null}}}) { _docID title } }`, "Book.author.age:_eq:null"},
+		}
+		for k := 0; k < 2 && len(r.res.Viols) == 0; k++ {
+			rq := relq[mod(r.next(), len(relq))]
+			r.compare(i, rq.q, "Book", "", rq.tag)
+		}
 	}
 	r.res.Stats["checkpoints"]++
 }
